@@ -655,17 +655,25 @@ package profile
 //@   requires p != nil
 //@   requires forall i int :: 0 <= i && i < len(p.SampleType) ==> p.SampleType[i] != nil
 //@   ensures len(result) == len(p.SampleType)
+//@   ensures names: forall i int :: 0 <= i && i < len(p.SampleType) ==> result[i] == p.SampleType[i].Type
 //@   loop 1
 //@     invariant 0 <= $i && $i <= len(p.SampleType) && len(types) == len(p.SampleType)
+//@     invariant forall i int :: 0 <= i && i < $i ==> types[i] == p.SampleType[i].Type
 //@ func Profile.SampleIndexByName
 //@   requires p != nil
 //@   requires forall i int :: 0 <= i && i < len(p.SampleType) ==> p.SampleType[i] != nil
 //@   ensures inrange: result1 == nil ==> -1 <= result0 && result0 < len(p.SampleType) && (len(p.SampleType) > 0 ==> result0 >= 0)
 //@   ensures frame: len(p.SampleType) == old(len(p.SampleType))
+//@   ensures numeric: result1 == nil && sampleIndex != "" && ext("strconv.Atoi", 1, sampleIndex) == nil ==> result0 == ext("strconv.Atoi", 0, sampleIndex)
+//@   ensures named: result1 == nil && sampleIndex != "" && ext("strconv.Atoi", 1, sampleIndex) != nil ==>
+//@       (p.SampleType[result0].Type == sampleIndex || p.SampleType[result0].Type == trimprefix(sampleIndex, "inuse_"))
+//@       && forall j int :: 0 <= j && j < result0 ==> p.SampleType[j].Type != sampleIndex && p.SampleType[j].Type != trimprefix(sampleIndex, "inuse_")
+//@   ensures dflt: result1 == nil && sampleIndex == "" ==> (result0 == len(p.SampleType) - 1 || (p.DefaultSampleType != "" && p.SampleType[result0].Type == p.DefaultSampleType))
 //@   loop 1
 //@     invariant 0 <= $i && $i <= len(p.SampleType)
 //@   loop 2
 //@     invariant 0 <= $i && $i <= len(p.SampleType)
+//@     invariant forall j int :: 0 <= j && j < $i ==> p.SampleType[j].Type != sampleIndex && p.SampleType[j].Type != trimprefix(sampleIndex, "inuse_")
 
 // ---- C03: zero-sample test and mapping memoisation (strengthened after seeded changes C03-zero-sample-test-sums-components, C03-mapping-offset-lost-in-id-memo) ----
 //@ func isZeroSample arith bv
